@@ -1078,7 +1078,7 @@ func c04ClientTakesTheOffer(w *World, r *Report) {
 // that has selected its channel and is still dialling is not counted yet.
 func ruleServerSessionClosers(w *World, r *Report, rule string) {
 	ch := w.Named("internal/server", "ConnectionHandler")
-	sessF := fieldOf(ch, "session")
+	sessF := fieldByType(ch, isSmuxSessionPtr)
 	if ch == nil || sessF == nil {
 		r.Undecided(rule, "anchor", "-", "anchor unresolved: server.ConnectionHandler.session")
 		return
@@ -1714,7 +1714,7 @@ func c16NoRoundIsSkipped(w *World, r *Report, uc, openM *types.Func) {
 		r.Undecided(rule, key, "-", "anchor unresolved")
 		return
 	}
-	connF := fieldOf(w.Named("internal/client/upstream", "Upstreams"), "connection")
+	_, connF, _ := upstreamsSharedFields(w)
 	unusableFact := func(v ssa.Value, t bool) (isTest, unusable bool) {
 		if x, eqNil, ok := nilTest(v); ok && isLoadOfField(x, connF) {
 			return true, t == eqNil
@@ -3940,6 +3940,43 @@ func c15ListenerLoopSurvivesAcceptErrors(w *World, r *Report) {
 					return true // a boolean field of the server object: its shutdown flag
 				}
 			}
+			boolFieldGetter := func(h *ssa.Function) bool {
+				if h == nil || len(h.Blocks) == 0 {
+					return false
+				}
+				only, found := true, false
+				allInstrs(h, func(in ssa.Instruction) {
+					if ret, ok := in.(*ssa.Return); ok && len(ret.Results) == 1 {
+						for _, root := range provenance(ret.Results[0], provOpts{}) {
+							if u, ok := root.(*ssa.UnOp); ok {
+								if fa, ok := u.X.(*ssa.FieldAddr); ok {
+									if b, ok := fieldVarOf(fa).Type().Underlying().(*types.Basic); ok && b.Kind() == types.Bool {
+										found = true
+										continue
+									}
+								}
+							}
+							only = false
+						}
+					}
+				})
+				return found && only
+			}
+			// `srv.stopped()` through an interface: every implementer in the module is a getter of a boolean field
+			if c, ok := v.(*ssa.Call); ok && c.Call.IsInvoke() && c.Call.Method.Type().(*types.Signature).Params().Len() == 0 {
+				if it, ok := c.Call.Value.Type().Underlying().(*types.Interface); ok {
+					impls := w.Implementers(it)
+					all := len(impls) > 0
+					for _, im := range impls {
+						if !boolFieldGetter(w.SSAFunc(methodOf(im, c.Call.Method.Name()))) {
+							all = false
+						}
+					}
+					if all {
+						return true
+					}
+				}
+			}
 			if c, ok := v.(*ssa.Call); ok {
 				if h := c.Call.StaticCallee(); h != nil && inModule(h) && h.Signature.Results().Len() == 1 {
 					// `st.stopped()` accessor
@@ -4046,7 +4083,7 @@ func c15ListenerLoopSurvivesAcceptErrors(w *World, r *Report) {
 // connection nil or closed, or after it was closed on that path.
 func ruleSharedConnectionForgottenOnlyWhenDead(w *World, r *Report, rule string) {
 	ups := w.Named("internal/client/upstream", "Upstreams")
-	connF, sessF := fieldOf(ups, "connection"), fieldOf(ups, "session")
+	_, connF, sessF := upstreamsSharedFields(w)
 	if ups == nil || connF == nil || sessF == nil {
 		r.Undecided(rule, "type:client/upstream.Upstreams", "-", "anchor unresolved")
 		return
@@ -4214,11 +4251,17 @@ func c07EveryWaiterIsWoken(w *World, r *Report) {
 			if cc.IsInvoke() || cc.StaticCallee() != nil {
 				continue
 			}
-			// a call of an element of the list
+			// a call of an element of the list (directly, or in a helper that is handed the list)
 			var ia *ssa.IndexAddr
+			isList := false
+			for _, cl := range calledListFields(w, pkgFuncs(w, "/internal/streams/dns/util"), fn, c) {
+				if cl.f == listF {
+					isList = true
+				}
+			}
 			for _, root := range provenance(cc.Value, provOpts{}) {
 				if u, ok := root.(*ssa.UnOp); ok {
-					if x, ok := u.X.(*ssa.IndexAddr); ok && isLoadOfFieldDeep(x.X, listF) {
+					if x, ok := u.X.(*ssa.IndexAddr); ok && isList {
 						ia = x
 					}
 				}
@@ -4287,6 +4330,14 @@ func c12ClientIndexesAnswerDataInBounds(w *World, r *Report) {
 			r.Hold(rule, key, w.Pos(fn.Pos()), fmt.Sprintf("%d index/slice operation(s) proven in bounds", cnt))
 			continue
 		}
+		// a free helper over byte slices (`firstMismatch(got, want)`, `checkCaseSwap(data)`): in bounds under a
+		// simple precondition on the lengths of its parameters that every call site establishes
+		if fn.Signature.Recv() == nil && fn.Parent() == nil {
+			if pre := helperLengthPrecondition(w, fn); pre != "" {
+				r.Hold(rule, key, w.Pos(fn.Pos()), fmt.Sprintf("%d index/slice operation(s) proven in bounds under the precondition %s, which every call site establishes", cnt, pre))
+				continue
+			}
+		}
 		// only expressions on the data of a decoded answer (a field of a commands.*Response / util.Packet, or a byte
 		// slice parameter of a helper that is handed one): the client's own bookkeeping slices are not peer input
 		nrep := 0
@@ -4338,4 +4389,93 @@ func c12ClientIndexesAnswerDataInBounds(w *World, r *Report) {
 	if n == 0 {
 		r.Undecided(rule, "bounds", "-", "no index/slice operation found in the client-side functions (anchors moved?)")
 	}
+}
+
+// helperLengthPrecondition: a precondition of the form len(p_i) == len(p_j), len(p_i) >= len(p_j) or len(p_i) >= K
+// under which every index/slice expression of fn is proven in bounds, and which A10 proves at every static call
+// site of fn in the module. "" if there is none.
+func helperLengthPrecondition(w *World, fn *ssa.Function) string {
+	type cand struct {
+		name  string
+		apply func(s *lsys, args []ssa.Value)
+		holds func(s *lsys, args []ssa.Value) bool
+	}
+	var slices []int
+	for i, p := range fn.Params {
+		if isStringOrBytes(p.Type()) {
+			slices = append(slices, i)
+		}
+	}
+	var cands []cand
+	for _, i := range slices {
+		for _, j := range slices {
+			if i == j {
+				continue
+			}
+			i, j := i, j
+			cands = append(cands, cand{
+				name:  fmt.Sprintf("len(%s) >= len(%s)", fn.Params[i].Name(), fn.Params[j].Name()),
+				apply: func(s *lsys, a []ssa.Value) { s.le(lenOf(a[j], 0), lenOf(a[i], 0)) },
+				holds: func(s *lsys, a []ssa.Value) bool { return s.entails(lenOf(a[j], 0), lenOf(a[i], 0)) },
+			})
+		}
+		for k := int64(1); k <= 4; k++ {
+			i, k := i, k
+			cands = append(cands, cand{
+				name:  fmt.Sprintf("len(%s) >= %d", fn.Params[i].Name(), k),
+				apply: func(s *lsys, a []ssa.Value) { s.le(linConst(k), lenOf(a[i], 0)) },
+				holds: func(s *lsys, a []ssa.Value) bool { return s.entails(linConst(k), lenOf(a[i], 0)) },
+			})
+		}
+	}
+	params := make([]ssa.Value, len(fn.Params))
+	for i, p := range fn.Params {
+		params[i] = p
+	}
+	// try single candidates, then pairs
+	try := func(cs []cand) bool {
+		assumedFacts[fn] = nil
+		for _, c := range cs {
+			c := c
+			assumedFacts[fn] = append(assumedFacts[fn], func(s *lsys) { c.apply(s, params) })
+		}
+		_, issues := checkBounds(fn)
+		delete(assumedFacts, fn)
+		if len(issues) != 0 {
+			return false
+		}
+		ncall := 0
+		for _, g := range sortedFuncs(allModuleFuncs(w, w.SSA())) {
+			for _, c := range callsIn(g) {
+				if c.Common().StaticCallee() != fn {
+					continue
+				}
+				ncall++
+				ci, ok := c.(ssa.Instruction)
+				if !ok || len(c.Common().Args) != len(fn.Params) {
+					return false
+				}
+				sys := factsAt(ci)
+				for _, cd := range cs {
+					if !cd.holds(sys, c.Common().Args) {
+						return false
+					}
+				}
+			}
+		}
+		return ncall > 0
+	}
+	for _, c := range cands {
+		if try([]cand{c}) {
+			return c.name
+		}
+	}
+	for i := range cands {
+		for j := i + 1; j < len(cands); j++ {
+			if try([]cand{cands[i], cands[j]}) {
+				return cands[i].name + " and " + cands[j].name
+			}
+		}
+	}
+	return ""
 }
